@@ -38,6 +38,7 @@ def handle (line : String) : String :=
       | "hshake"  => handleHShake fs
       | "riter"   => handleRIter fs
       | "tscan"   => handleTScan fs
+      | "perm"    => handlePerm fs
       | "top5"    => handleTop5 fs
       | "ratios"  => handleRatios fs
       | "exc"     => handleExc fs
